@@ -29,6 +29,29 @@ theorem failed_pop_pure (stepsOf : Heap → List (Step Val)) (src : Src Val) (mm
     · simp only [Prod.mk.injEq] at hr; exact hr.1.symm
   · simp only [Prod.mk.injEq] at hr; exact hr.1.symm
 
+/-- the one reader that can write, when the search itself fails (a predicate raises, the
+budget runs out): the error is passed on and nothing is stored -/
+theorem get_store_default_error_stores_nothing (stepsOf : Heap → List (Step Val)) (src : Src Val) (h : Heap) (v : Val)
+    (e : ApiErr) (herr : getMatch (wcx h) (stepsOf h).toArray src false = .error e) :
+    getStoreDefault stepsOf src v h = (h, .error e) := by
+  simp [getStoreDefault, herr]
+
+/-- `pop(expr, data, default)` that finds nothing answers with the default and leaves the
+store as it is: only a pop that returns a match has written -/
+theorem pop_default_pure (stepsOf : Heap → List (Step Val)) (src : Src Val) (d : Val) (h h' : Heap)
+    (r : Except ApiErr Val) (hr : pop stepsOf src (some d) h = (h', r))
+    (hmiss : ∀ m, (popMatch stepsOf src false h).2 ≠ .ok (some m)) : h' = h := by
+  unfold pop at hr
+  rcases hp : popMatch stepsOf src false h with ⟨h1, r1⟩
+  have hpure : h1 = h := failed_pop_pure stepsOf src false h h1 r1 hp (by simpa [hp] using hmiss)
+  simp only [Option.isNone_some, hp] at hr
+  cases r1 with
+  | error e => simp only [Prod.mk.injEq] at hr; rw [← hr.1, hpure]
+  | ok o =>
+    cases o with
+    | none => simp only [Prod.mk.injEq] at hr; rw [← hr.1, hpure]
+    | some m => simp only [Prod.mk.injEq] at hr; rw [← hr.1, hpure]
+
 /-- evaluating or rendering a path fills caches only: every vertex keeps its parent and kind,
 so the expression renders the same and selects the same afterwards -/
 theorem path_unchanged_by_use (st : VStore) (hw : WF st) (v : Nat) (hv : v < st.size) :
